@@ -198,3 +198,48 @@ MUTANTS += [
     {"id": 'C03-no-counter-len-minus-one-at-end', "prop": "C03", "expect": 'FOLD',
      "edits": [("src/decoder.rs", _U8_OLD, _u8_new("index + 1", "index + 1", "available.saturating_sub(1)"))]},
 ]
+
+
+# ---- round M3: the traversal written as an indexed `while i < len` loop over the slice bound once (index variable = consumed-byte counter)
+_MD_OLD = ("        let mut consumed = 0;\n        let mut output = None;\n        for byte in input.fill_buf()?.iter() {\n            consumed += 1;\n"
+           "            if let Some(item) = self.decode_byte(*byte) {\n")
+
+
+def _md_indexed(guard="consumed < available", body="            let byte = data[consumed];\n            consumed += 1;\n", pre="", idx="consumed"):
+    return ("        let data = input.fill_buf()?;\n        let available = data.len();\n        let mut consumed = 0;\n        let mut output = None;\n" + pre +
+            "        while " + guard + " {\n" + body + "            if let Some(item) = self.decode_byte(byte) {\n")
+
+
+MUTANTS += [
+    {"id": "C03-benign-indexed-while", "prop": "C03", "benign": True, "edits": [("src/decoder.rs", _MD_OLD, _md_indexed())]},
+    {"id": "C03-benign-indexed-while-flipped-guard", "prop": "C03", "benign": True, "edits": [("src/decoder.rs", _MD_OLD, _md_indexed(guard="available > consumed"))]},
+    {"id": "C03-benign-indexed-while-ne-guard-inline-len", "prop": "C03", "benign": True, "edits": [("src/decoder.rs", _MD_OLD, _md_indexed(guard="consumed != data.len()").replace("        let available = data.len();\n", ""))]},
+    {"id": "C03-benign-indexed-while-negated-guard", "prop": "C03", "benign": True, "edits": [("src/decoder.rs", _MD_OLD, _md_indexed(guard="!(consumed >= available)"))]},
+    {"id": "C03-benign-indexed-separate-index-and-counter", "prop": "C03", "benign": True,
+     "edits": [("src/decoder.rs", _MD_OLD, _md_indexed(guard="at < available", pre="        let mut at = 0;\n", body="            let byte = data[at];\n            at += 1;\n            consumed += 1;\n"))]},
+    {"id": "C03-indexed-read-after-increment", "prop": "C03", "expect": "FOLD",
+     "edits": [("src/decoder.rs", _MD_OLD, _md_indexed(guard="consumed + 1 < available", body="            consumed += 1;\n            let byte = data[consumed];\n"))]},
+    {"id": "C03-indexed-read-after-increment-same-guard", "prop": "C03", "expect": "FOLD",
+     "edits": [("src/decoder.rs", _MD_OLD, _md_indexed(body="            consumed += 1;\n            let byte = data[consumed % available];\n"))]},
+    {"id": "C03-indexed-stride-two", "prop": "C03", "expect": "FOLD",
+     "edits": [("src/decoder.rs", _MD_OLD, _md_indexed(guard="consumed + 1 < available", body="            let byte = data[consumed];\n            consumed += 2;\n"))]},
+    {"id": "C03-indexed-guard-drops-last-byte", "prop": "C03", "expect": "FOLD",
+     "edits": [("src/decoder.rs", _MD_OLD, _md_indexed(guard="consumed + 1 < available"))]},
+    {"id": "C03-indexed-counter-skips-some-bytes", "prop": "C03", "expect": "FOLD",
+     "edits": [("src/decoder.rs", _MD_OLD, _md_indexed(guard="at < available", pre="        let mut at = 0;\n", body="            let byte = data[at];\n            at += 1;\n            if byte != 0x1b {\n                consumed += 1;\n            }\n"))]},
+    {"id": "C03-indexed-increment-after-step", "prop": "C03", "expect": "FOLD",
+     "edits": [("src/decoder.rs", _MD_OLD, _md_indexed(body="            let byte = data[consumed];\n").replace("self.decode_byte(byte) {\n", "self.decode_byte(byte) {\n                consumed += 1;\n") )]},
+]
+
+
+def _md_range(rng="0..data.len()", idx="at"):
+    return ("        let data = input.fill_buf()?;\n        let mut consumed = 0;\n        let mut output = None;\n        for at in " + rng + " {\n            consumed += 1;\n"
+            "            if let Some(item) = self.decode_byte(data[" + idx + "]) {\n")
+
+
+MUTANTS += [
+    {"id": "C03-benign-range-indexed-for", "prop": "C03", "benign": True, "edits": [("src/decoder.rs", _MD_OLD, _md_range())]},
+    {"id": "C03-range-indexed-skips-first", "prop": "C03", "expect": "FOLD", "edits": [("src/decoder.rs", _MD_OLD, _md_range(rng="1..data.len()"))]},
+    {"id": "C03-range-indexed-backwards", "prop": "C03", "expect": "FOLD", "edits": [("src/decoder.rs", _MD_OLD, _md_range(rng="(0..data.len()).rev()"))]},
+    {"id": "C03-range-indexed-mirrored-read", "prop": "C03", "expect": "FOLD", "edits": [("src/decoder.rs", _MD_OLD, _md_range(idx="data.len() - 1 - at"))]},
+]
